@@ -477,7 +477,7 @@ def r2(ctx):
 def r10(ctx):
     from ..absint import Config, Interp
     idx = ctx.index
-    I = Interp(idx, Config())
+    I = Interp(idx, Config(loop_unroll=100))   # payloads are short constants: loops over them are followed to their end
     loc = idx.loc(idx.func("_utils:validate_utf8").node) if "_utils:validate_utf8" in idx.functions else ""
 
     def ok_utf8(b):
@@ -599,11 +599,12 @@ def r5(ctx):
             if what == "text message" and o.kind == "raise":
                 # the rejected payload must not stay behind: later messages are judged on their own bytes
                 ws = next(c for c in o.run.heap.values() if getattr(c, "label", "") == "ws")
-                cf = o.run.cell(ws.fields["cont_frame"]).fields
-                clean = cf.get("cont_data") in (None, C(None)) and cf.get("recving_frames") in (None, C(None))
+                from ..models import reasm_after
+                after = reasm_after(o)
+                clean = after == o.run.memo.get("@reasm_idle")
                 ctx.ob(f"{fn}:{state}:rejected-message-leaves-reassembler-idle:{n}", clean,
-                       "buffer and in-progress marker are cleared when a message is rejected" if clean else
-                       f"after rejecting an invalid text message the reassembly buffer still holds {cf.get('cont_data')!r} (in-progress {cf.get('recving_frames')!r}): "
+                       "the reassembler is back in the state its constructor leaves it in when a message is rejected" if clean else
+                       f"after rejecting an invalid text message the reassembler still holds {after!r:.200}: "
                        f"the next message is judged on stale + new bytes", o.raise_loc, {"path": path_text(o)})
         if n == 0:
             raise AnalysisError(f"state {state}: no path with a falsy validator result")
@@ -625,10 +626,3 @@ def r_options(ctx):
 def r8(ctx):
     from .c01 import r8 as trace_equivalence
     trace_equivalence(ctx)
-
-
-
-@rule("R-C06-9", min_instances=1, title="every payload is validated from the start state: the validator keeps nothing between calls (no module-level validator object whose automaton state survives a refused payload)")
-def r_sib_r_c06_9(ctx):
-    from .c12 import r9 as no_hidden_sharing
-    no_hidden_sharing(ctx, modules=("_utils", "_abnf", "_core"))
